@@ -209,6 +209,17 @@ class Runner:
         known, fixed = load_known()
         pre = self.prebuild_replay(plan)
         all_units = list(plan.units) + list(plan.extra_accept_units)
+        # generator self-defence: a unit presented as rule-valid must be rule-valid by the oracle; anything else
+        # is a bug of the corpus generator (not of the code under test) and is dropped with a note
+        from .model import Layout as _Layout, EnumDef as _EnumDef
+        kept = []
+        for u in all_units:
+            obj = u.meta.get("layout") if isinstance(u.meta.get("layout"), _Layout) else (u.meta.get("enum") if isinstance(u.meta.get("enum"), _EnumDef) else None)
+            if obj is not None and u.meta.get("valid") is not False and not obj.rule_valid():
+                self.universal_notes.append(f"generator error: unit {u.uid} ({u.meta.get('tag')}) is not rule-valid; dropped")
+                continue
+            kept.append(u)
+        all_units = kept
         # chunk units into crates
         chunks, cur, cnt = [], [], 0
         for u in all_units:
